@@ -155,3 +155,7 @@ reg(Prop('C19', pv.gen_item_C19, pv.eval_C19, 320, 3000,
          "0-3 catalog rows, slice changes) over the three slots; after every event selections, subtree flags, highlighted lines, label text, "
          "contour masks (captured at Axes.contour), highlighted scatter rows and the callback log are compared with the Lean hub model",
          ASSUME_IO + ["rendering and real GUI event delivery are Matplotlib's: events are synthetic objects with the attributes the handlers read"], ['C19_click', 'C19_cleared', 'C19_slots_independent', 'C19_notify_once', 'C19_highlight_subtree', 'C19_lasso', 'C19_lasso_rows', 'C19_lasso_empty']))
+
+for _p, _b in (('C19', 8), ('C12', 30), ('C15', 30), ('C09', 60), ('C18', 60)):
+    PROPS[_p].shrink_budget = _b
+PROPS['C19'].max_kinds = 2
